@@ -120,7 +120,7 @@ pub fn run(repeats: u64, n: u64) -> (u64, u64, u64, u64, Vec<String>) {
     let false_rej = res.iter().filter(|r| r.0).count() as u64;
     let mut msgs: Vec<String> = res.iter().filter(|r| r.0).map(|r| format!("FALSE REJECTION {}", r.1)).collect();
     // planted defects on a subset
-    let planted: Vec<(Cell, u8)> = cs.iter().filter(|c| matches!(c.fam, Fam::Normal | Fam::Exp | Fam::Weibull | Fam::Gumbel | Fam::Gamma | Fam::Poisson | Fam::Binomial)).flat_map(|c| [(c.clone(), 0u8), (c.clone(), 1u8)]).collect();
+    let planted: Vec<(Cell, u8)> = cs.iter().filter(|c| matches!(c.fam, Fam::Normal | Fam::Exp | Fam::Weibull | Fam::Gumbel | Fam::Gamma | Fam::Poisson | Fam::Binomial)).flat_map(|c| [(c.clone(), 0u8), (c.clone(), 1u8), (c.clone(), 2u8)]).collect();
     let pres: Vec<(bool, String)> = planted
         .par_iter()
         .map(|(cell, kind)| {
@@ -128,12 +128,14 @@ pub fn run(repeats: u64, n: u64) -> (u64, u64, u64, u64, Vec<String>) {
             let c2 = cell.clone();
             let kind = *kind;
             let discrete = law.discrete;
-            if kind == 1 && discrete {
+            if kind >= 1 && discrete {
                 return (true, String::new());
             }
             // defect 0: with probability 2e-2 a lower-half draw is replaced by the median-ish value of an independent draw
             //           is redrawn from the upper half (moves 1e-2 of mass: ~4x the quick-tier body resolution 2.2e-3)
             // defect 1: a 3 % scale error (max CDF shift ~7e-3)
+            // defect 2: a rare constant fallback: with probability 2e-5 the median is returned (an atom far below
+            //           the resolution of T1-T3; must be caught by the atom test T5)
             let med = crate::refdist::quantile(&law, 0.5).unwrap_or(0.0);
             let fill = move |rng: &mut BaseRng, out: &mut [f64]| {
                 for o in out.iter_mut() {
@@ -149,8 +151,10 @@ pub fn run(repeats: u64, n: u64) -> (u64, u64, u64, u64, Vec<String>) {
                                 }
                             }
                         }
-                    } else {
+                    } else if kind == 1 {
                         x = c2.p.first().copied().filter(|_| matches!(c2.fam, Fam::Normal | Fam::Gumbel)).map(|loc| loc + (x - loc) * 1.03).unwrap_or(x * 1.03);
+                    } else if u01(rng) < 2e-5 {
+                        x = med;
                     }
                     *o = x;
                 }
